@@ -211,6 +211,16 @@ struct CtlAdaptor final : vf::ICtl {
 	}
 	int  stateId() const override { return c.stateId() == hfsm2::INVALID_STATE_ID ? -1 : int(c.stateId()); }
 	bool typed() const { return c.context().typed; }
+	// plan(regionId) or plan<RegionHead>()
+	auto planOf(int region) const {
+		if (typed()) switch (region) {
+#define VF_PLAN_CASE(R, N) case R: return c.template plan<St<N>>();
+		VF_FOR_EACH_HEADED_REGION(VF_PLAN_CASE)
+#undef VF_PLAN_CASE
+		default: break;
+		}
+		return c.plan(hfsm2::RegionID(region));
+	}
 	bool isActive(int s) const override {
 		bool r = false;
 		if (typed() && withStateType(s, [&](auto t) { r = c.template isActive<typename decltype(t)::type>(); })) return r;
@@ -315,7 +325,7 @@ struct CtlAdaptor final : vf::ICtl {
 	bool planAppend(int region, int kind, int origin, int dest, const int64_t* payload) override {
 #if VF_PLANS
 		if constexpr (IS_PLAN) {
-			auto p = c.plan(hfsm2::RegionID(region));
+			auto p = planOf(region);
 			const hfsm2::StateID o = hfsm2::StateID(origin), d = hfsm2::StateID(dest);
 #if VF_PAYLOAD
 			if (payload) {
@@ -353,14 +363,14 @@ struct CtlAdaptor final : vf::ICtl {
 	}
 	void planClear(int region) override {
 #if VF_PLANS
-		if constexpr (IS_PLAN) { c.plan(hfsm2::RegionID(region)).clear(); }
+		if constexpr (IS_PLAN) { planOf(region).clear(); }
 #endif
 		(void) region;
 	}
 	bool planRemoveAt(int region, int index) override {
 #if VF_PLANS
 		if constexpr (IS_PLAN) {
-			auto p = c.plan(hfsm2::RegionID(region));
+			auto p = planOf(region);
 			int i = 0;
 			for (auto it = p.begin(); it && i <= int(FSM::TASK_CAPACITY); ++it, ++i)
 				if (i == index) { it.remove(); return true; }
@@ -373,7 +383,7 @@ struct CtlAdaptor final : vf::ICtl {
 		out.clear();
 #if VF_PLANS
 		if constexpr (IS_PLAN) {
-			auto p = c.plan(hfsm2::RegionID(region));
+			auto p = planOf(region);
 			int guard = 0;
 			for (auto it = p.begin(); it; ++it) {
 				if (++guard > int(FSM::TASK_CAPACITY)) { vf::TaskV cyc; cyc.origin = -99; out.push_back(cyc); break; }    // more items than the pool holds: the list is cyclic
@@ -656,6 +666,17 @@ struct Node final : vf::INode {
 	void query(int) override { drive(); vf::LibScope ls; Qr0 q; static_cast<const Instance*>(inst)->query(q); }
 
 	bool typed = false;
+#if VF_PLANS
+	auto planOf(int region) const {
+		if (typed) switch (region) {
+#define VF_PLAN_CASE(R, N) case R: return inst->template plan<St<N>>();
+		VF_FOR_EACH_HEADED_REGION(VF_PLAN_CASE)
+#undef VF_PLAN_CASE
+		default: break;
+		}
+		return inst->plan(hfsm2::RegionID(region));
+	}
+#endif
 	void useTyped(bool on) override { typed = on; if (inst) hfsm2_verif::Probe::core(*inst).context.typed = on; }
 
 	void request(int kind, int dest, const int64_t* payload) override {
@@ -807,7 +828,7 @@ struct Node final : vf::INode {
 	bool planAppend(int region, int kind, int origin, int dest, const int64_t* payload) override {
 #if VF_PLANS
 		drive(); vf::LibScope ls;
-		auto p = inst->plan(hfsm2::RegionID(region));
+		auto p = planOf(region);
 		const hfsm2::StateID o = hfsm2::StateID(origin), d = hfsm2::StateID(dest);
 #if VF_PAYLOAD
 		if (payload) {
@@ -845,14 +866,14 @@ struct Node final : vf::INode {
 	}
 	void planClear(int region) override {
 #if VF_PLANS
-		drive(); vf::LibScope ls; inst->plan(hfsm2::RegionID(region)).clear();
+		drive(); vf::LibScope ls; planOf(region).clear();
 #endif
 		(void) region;
 	}
 	bool planRemoveAt(int region, int index) override {
 #if VF_PLANS
 		drive(); vf::LibScope ls;
-		auto p = inst->plan(hfsm2::RegionID(region));
+		auto p = planOf(region);
 		int i = 0;
 		for (auto it = p.begin(); it && i <= int(FSM::TASK_CAPACITY); ++it, ++i)
 			if (i == index) { it.remove(); return true; }
@@ -863,7 +884,7 @@ struct Node final : vf::INode {
 	void planRead(int region, std::vector<vf::TaskV>& out) const override {
 		out.clear();
 #if VF_PLANS
-		auto p = inst->plan(hfsm2::RegionID(region));
+		auto p = planOf(region);
 		std::vector<vf::TaskV> tmp;
 		{
 			vf::LibScope ls;
